@@ -35,23 +35,25 @@ type vConn struct {
 	script []byte // server -> client
 	rpos   int
 	// release[i] = {after, upto}: script bytes up to `upto` become readable once the client wrote `after` bytes
-	gateAfter int // client bytes that must be written before script[gateFrom:] is readable
-	gateFrom  int
-	gates     [][2]int // {after, from}: script[from:] is readable only once the client wrote `after` bytes
-	cutAt     int // -1: never; otherwise the stream ends (EOF) after cutAt bytes
-	maxIdle   int // read timeouts delivered when nothing more arrives, then EOF
+	gateAfter    int // client bytes that must be written before script[gateFrom:] is readable
+	gateFrom     int
+	gates        [][2]int // {after, from}: script[from:] is readable only once the client wrote `after` bytes
+	cutAt        int      // -1: never; otherwise the stream ends (EOF) after cutAt bytes
+	brokenOnce   *vCtx    // writes fail from the moment this context is done
+	failedWrites int
+	maxIdle      int // read timeouts delivered when nothing more arrives, then EOF
 
-	out       []byte   // client -> server, copied at Write time
-	writeLens []int    // length of every Write call
-	failAfter int      // -1: never; otherwise writes fail once this many bytes were accepted
-	closed    int
-	idles     int
-	reads     int
-	readDL    []time.Time
-	writeDL   []time.Time
+	out             []byte // client -> server, copied at Write time
+	writeLens       []int  // length of every Write call
+	failAfter       int    // -1: never; otherwise writes fail once this many bytes were accepted
+	closed          int
+	idles           int
+	reads           int
+	readDL          []time.Time
+	writeDL         []time.Time
 	callsAfterClose int
-	idleAt    []int // script offsets (packet boundaries) at which one read timeout fires first
-	idleFired int
+	idleAt          []int // script offsets (packet boundaries) at which one read timeout fires first
+	idleFired       int
 }
 
 func vNewConn(script []byte) *vConn {
@@ -128,6 +130,11 @@ func (c *vConn) Write(p []byte) (int, error) {
 		c.callsAfterClose++
 		return 0, vConnErr{"use of closed network connection"}
 	}
+	if c.brokenOnce != nil && c.brokenOnce.cancelled {
+		// the peer is gone by the time the caller gives up: nothing can be written any more
+		c.failedWrites++
+		return 0, vConnErr{"write: broken pipe"}
+	}
 	c.writeLens = append(c.writeLens, len(p))
 	if c.failAfter >= 0 && len(p) > c.failAfter {
 		n := c.failAfter
@@ -169,26 +176,45 @@ func (c *vConn) SetWriteDeadline(t time.Time) error {
 
 // vCtx is the caller's context: cancellation flips at the k-th observation (gate).
 type vCtx struct {
-	gateAt    int // -1: never cancelled
-	gates     int
-	cancelled bool
-	done      chan struct{}
-	deadline  time.Time
-	hasDL     bool
+	gateAt      int // -1: never cancelled
+	gates       int
+	cancelled   bool
+	done        chan struct{}
+	deadline    time.Time
+	hasDL       bool
+	expires     bool // the deadline is what ends the context: Err() is DeadlineExceeded from that instant on
+	err         error
 	cancelledAt time.Time
 }
 
 func vNewCtx(gateAt int) *vCtx { return &vCtx{gateAt: gateAt, done: make(chan struct{})} }
 
+func (c *vCtx) fire(err error) {
+	c.cancelled, c.err = true, err
+	c.cancelledAt = time.Now()
+	close(c.done)
+	verifPollContexts()
+}
+
 func (c *vCtx) gate() {
-	if c.cancelled || c.gateAt < 0 {
+	if c.cancelled {
+		return
+	}
+	if c.expires && !time.Now().Before(c.deadline) {
+		c.fire(context.DeadlineExceeded)
+		return
+	}
+	if c.gateAt < 0 {
 		return
 	}
 	if c.gates == c.gateAt {
-		c.cancelled = true
-		c.cancelledAt = time.Now()
-		close(c.done)
-		verifPollContexts()
+		if c.expires {
+			// arbitrary time may pass between two observations: here, all that was left
+			verifClockAdvanceTo(c.deadline.UnixMilli() + 1)
+			c.fire(context.DeadlineExceeded)
+		} else {
+			c.fire(context.Canceled)
+		}
 		return
 	}
 	c.gates++
@@ -199,7 +225,7 @@ func (c *vCtx) Done() <-chan struct{}       { c.gate(); return c.done }
 func (c *vCtx) Err() error {
 	c.gate()
 	if c.cancelled {
-		return context.Canceled
+		return c.err
 	}
 	return nil
 }
@@ -250,10 +276,18 @@ func (s *VerifServer) DialContext(ctx context.Context, network, address string) 
 	return c, nil
 }
 
-func (s *VerifServer) Dials() int           { return len(s.conns) }
-func (s *VerifServer) Closed(i int) bool    { return s.conns[i].closed > 0 }
-func (s *VerifServer) Pings(i int) int      { n := 0; for _, b := range s.conns[i].out { if b == 4 { n++ } }; return n }
-func (s *VerifServer) Cut(i int)            { s.conns[i].cutAt = s.conns[i].rpos }
+func (s *VerifServer) Dials() int        { return len(s.conns) }
+func (s *VerifServer) Closed(i int) bool { return s.conns[i].closed > 0 }
+func (s *VerifServer) Pings(i int) int {
+	n := 0
+	for _, b := range s.conns[i].out {
+		if b == 4 {
+			n++
+		}
+	}
+	return n
+}
+func (s *VerifServer) Cut(i int) { s.conns[i].cutAt = s.conns[i].rpos }
 func (s *VerifServer) OpenConns() int {
 	n := 0
 	for _, c := range s.conns {
